@@ -18,6 +18,8 @@ class ProofDecl:
         self.targets = targets
         self.assumes = assumes
         self.note = note
+        self.kind = 'proof'
+        self.bound = ''
 
 
 def repo_module_name(relpath):
@@ -59,6 +61,35 @@ def install(it):
                                            note))
                 return f
             return I.Builtin('proof-decorator', deco)
+
+        @B('bounded')
+        def _bounded(it, a, kw):
+            prop = a[0]
+            name = kw.get('name')
+
+            def deco(it, b, kw2):
+                f = b[0]
+                d = ProofDecl(prop, name or f.name, f,
+                              list(kw.get('targets', [])),
+                              list(kw.get('assumes', [])), kw.get('note', ''))
+                d.kind = 'bounded'
+                d.bound = kw.get('bound', '')
+                it.proofs.append(d)
+                return f
+            return I.Builtin('bounded-decorator', deco)
+
+        @B('model')
+        def _model(it, a, kw):
+            mod, name, val = a
+            mod.ns[name] = val
+
+        @B('rng')
+        def _rng(it, a, kw):
+            raise Unsupported('rng() in a symbolic run')
+
+        @B('tier')
+        def _tier(it, a, kw):
+            return 'quick'
 
         @B('fresh_int')
         def _fresh_int(it, a, kw):
@@ -132,6 +163,7 @@ def install(it):
         def _check(it, a, kw):
             name, cond = a[0], a[1]
             tag = a[2] if len(a) > 2 else kw.get('props')
+            # kw 'detail' (case description for bounded runs) is ignored
             if tag:
                 name = name + '@' + tag.replace(' ', ',')
             t = ops.truthy(it, cond)
